@@ -763,6 +763,7 @@ package node
 //@   ensures [forced_stop_kills_every_member] force && old(a.state) != 1 ==> (forall k gen.PID :: old(isMember(a, k)) ==> killAsked(k) == old(killAsked(k)) + 1) && a.reason == gen.TerminateReasonKill
 //@   ensures [mode_lowered_so_that_member_exits_do_not_retrigger_the_rule] old(a.state) == 2 ==> a.mode == 1
 //@   ensures [timeout_is_reported] result != nil && old(a.state) == 2 ==> result == gen.ErrApplicationStopping
+//@   ensures [tables_kept] tablesWF(a.node)
 
 // ---------------------------------------------------------------------------------------------
 // C06 / C04 / C17: what the finaliser does for a terminated process. After it, the process is in no
@@ -832,7 +833,7 @@ package node
 //@   props C17
 //@   mode int
 //@   no_frame
-//@   modifies depReady, appStartAsked, spawnSeq(), spawnedPid, wallclock(), appStartCb, smHas(n.processes), smVal(n.processes), smHas(n.names), smVal(n.names), killAsked
+//@   modifies depReady, appStartAsked, spawnSeq(), spawnedPid, wallclock(), appStartCb, smHas(n.processes), smVal(n.processes), smHas(n.names), smVal(n.names), smHas(n.aliases), smHas(n.events), killAsked, anyof(application).state, anyof(application).reason, anyof(application).mode, anyof(application).stopped, anyof(application).parent, anyof(application).started, anyof(application).group, exitSent, exitCalls(), routed, routeCalls(), pushed, woken, mwoken, lastLinks(), lastMonitors(), consumerCleaned, anyof(process).messagesIn, anyof(process).state, owner, fin, zs, anyof(gen.MailboxMessage).From, anyof(gen.MailboxMessage).Type, anyof(gen.MailboxMessage).Message, appTermCb, lastTermReason, exitAsked
 //@   requires [tables] appStartWF(n)
 //@   ensures [tables_kept] appStartWF(n)
 //@   ensures_ghost (result == nil || result == gen.ErrApplicationRunning) ==> depReady(name)
